@@ -267,7 +267,7 @@ fn exclude_known(z: &Zone, now: i64, l: i64, u: Unit) {
 
 /// TimeTrigger::{new, trigger}: fires on the first arrival at or after the scheduled instant,
 /// then reschedules strictly into the future.
-pub fn body_trigger(z: Zone, u: Unit, modulate: bool, witness: bool) {
+pub fn body_trigger(z: Zone, u: Unit, modulate: bool, narr: usize, witness: bool) {
     let n = 1 + sym::below(3) as i64;
     let t0 = z.lo + sym::below_u32((z.hi - z.lo - 400000) as u32) as i64;
     let l0 = t0 + offset_at_utc(&z, t0);
@@ -278,7 +278,7 @@ pub fn body_trigger(z: Zone, u: Unit, modulate: bool, witness: bool) {
     assert!(scheduled > t0);
     let mut t = t0;
     let mut fired_any = false;
-    for _ in 0..3 {
+    for _ in 0..narr {
         let d = sym::below_u32(100001) as i64;
         t += d;
         let lt = t + offset_at_utc(&z, t);
@@ -368,7 +368,9 @@ time_common! {
     #[kani::unwind(4)]
     fn known_havana_day_gap() { body_next(HAVANA, Unit::Day, false, 3, Some((1710046800, 90000)), true, false) }
     #[kani::unwind(5)]
-    fn trigger_utc_minute() { body_trigger(UTC0, Unit::Minute, false, false) }
+    fn trigger_utc_minute() { body_trigger(UTC0, Unit::Minute, false, 1, false) }
     #[kani::unwind(5)]
-    fn trigger_ny_hour_mod() { body_trigger(NEW_YORK, Unit::Hour, true, false) }
+    fn trigger_utc_minute_2() { body_trigger(UTC0, Unit::Minute, false, 2, false) }
+    #[kani::unwind(5)]
+    fn trigger_ny_hour_mod() { body_trigger(NEW_YORK, Unit::Hour, true, 2, false) }
 }
